@@ -9,6 +9,7 @@ import (
 	"regexp"
 	"strings"
 
+	"github.com/tdewolff/parse/v2"
 	"github.com/tdewolff/parse/v2/xml"
 
 	"vh/fw"
@@ -243,8 +244,42 @@ var c11Probes = []struct{ name, doc string }{
 	{"nul-in-attr", "<a b=\"c\x00d\"/>"},
 }
 
+// c11LongProbe: character data, an attribute value, a comment and a CDATA section of about 146 KB each are one token each.
+func c11LongProbe(t *fw.T) {
+	t.Key("probe:long-constructs")
+	long := strings.Repeat("0123456789 abcdefghijklmnopqrstuvwxyz.\n", 3750)
+	doc := "<r a=\"" + long + "\">" + long + "<!--" + long + "--><![CDATA[" + long + "]]></r>"
+	t.Desc(&c11Case{Kind: "probe", Doc: []byte("long constructs of 146250 bytes")})
+	l := xml.NewLexer(parse.NewInputString(doc))
+	want := []xml.TokenType{xml.StartTagToken, xml.AttributeToken, xml.StartTagCloseToken, xml.TextToken, xml.CommentToken, xml.CDATAToken, xml.EndTagToken}
+	for i, w := range want {
+		tt, data := l.Next()
+		if tt != w {
+			t.Failf("token %d of a document with 146250-byte constructs is %v (%d bytes), want %v", i, tt, len(data), w)
+			return
+		}
+		switch tt {
+		case xml.TextToken, xml.CommentToken, xml.CDATAToken:
+			if string(l.Text()) != long {
+				t.Failf("token %d %v: Text() has %d bytes, the construct has %d", i, tt, len(l.Text()), len(long))
+				return
+			}
+		}
+	}
+	if tt, _ := l.Next(); tt != xml.ErrorToken || l.Err() != io.EOF {
+		t.Failf("after the last token: %v, Err()=%v", tt, l.Err())
+		return
+	}
+	t.Count("probes", 1)
+	t.Nontrivial([]byte("long-constructs"))
+}
+
 func c11Probe(t *fw.T) {
-	p := c11Probes[t.Index%len(c11Probes)]
+	if t.Index%(len(c11Probes)+1) == len(c11Probes) {
+		c11LongProbe(t)
+		return
+	}
+	p := c11Probes[t.Index%(len(c11Probes)+1)]
 	t.Key("probe:" + p.name)
 	t.Desc(&c11Case{Kind: "probe", Doc: []byte(p.doc)})
 	for _, ctor := range inputCtors {
@@ -264,7 +299,7 @@ func init() {
 			"PI content is generated in pseudo-attribute form (the lexer tokenises it as attributes)"},
 		Required: []string{"tokens", "docs.agree_with_encoding_xml", "fuzz.tokens", "fuzz.attributes", "fuzz.eof", "fuzz.nul_errors", "probes"},
 		Streams: []fw.Stream{
-			{Name: "probes", Quick: len(c11Probes), Thorough: len(c11Probes), Run: c11Probe},
+			{Name: "probes", Quick: len(c11Probes) + 1, Thorough: len(c11Probes) + 1, Run: c11Probe},
 			{Name: "generated", Quick: 300000, Thorough: 40000000, Run: c11Generated},
 			{Name: "fuzz", Quick: 400000, Thorough: 50000000, Run: c11Fuzz},
 		},
